@@ -1,6 +1,13 @@
 CONSTANTS
   M = 3
   NR = 3
+  CanonOnAdd = TRUE
+  CanonOnUnion = TRUE
+  AddSkipsWhenAll = TRUE
+  ContainedChecksNames = TRUE
+  SubtractChecksContained = TRUE
+  IsAllByRangeOnly = TRUE
+  IntersectDropsEmpty = TRUE
 SPECIFICATION TSpec
 POSTCONDITION TraceAccepted
 CHECK_DEADLOCK FALSE
